@@ -19,6 +19,9 @@ RULE = (
     "which the learner fails or rejects its own input are C01's business "
     "and counted, not judged, here.")
 ASSUMPTIONS = [
+    "two families are enumerated completely on every run in addition to the "
+    "drawn cases: 1000 loop/break shapes and 320 nested-fork shapes "
+    "(vlib/gen.py loop_shapes, fork_shapes; complete job sets)",
     "vlib/pumlsem.py is the meaning of the dialect for source and output",
     "language inclusion is bounded: loops of the emitted diagram run <=2 "
     "times, at most 3000 executions per case",
@@ -128,6 +131,15 @@ def run_shard(ctx):
             run_case(case, ctx)
         except Violation as v:
             ctx.violation(case, str(v))
+            return
+    # exhaustive nested-fork family (320 definitions, complete sets)
+    for tag, case in pvcase.fork_shape_cases(ctx.seed, ctx.shard,
+                                             ctx.nshards):
+        ctx.count("fork_shapes_enumerated")
+        try:
+            run_case(dict(case, k=2) if ID == "C02" else case, ctx)
+        except Violation as v:
+            ctx.violation(case, f"[fork shape {tag}] " + str(v))
             return
     # exhaustive loop/break family (1000 definitions, complete sets, k=2)
     for tag, case in pvcase.loop_shape_cases(ctx.seed, ctx.shard,
